@@ -103,7 +103,7 @@ func c12Key(w *world, canonVal bool) (key, alias [16]byte) {
 		abuf = append(abuf, byte(id), byte(v.m.off), byte(v.m.n), byte(len(v.m.st.cells)))
 	}
 	buf = append(buf, 0xff)
-	ren := map[int64]byte{}
+	ren := map[int64]byte{0: 0} // zero keeps its identity
 	for _, st := range order {
 		buf = append(buf, byte(len(st.cells)))
 		for _, x := range st.cells {
